@@ -43,7 +43,7 @@ def known_findings():
 def parse_dcase(line):
     f = line.split(" ")
     d = {"id": f[1], "ds": unhex(f[2]), "de": unhex(f[3]), "s": unhex(f[4]), "tl": unhex(f[5]), "offset": unhex(f[6]),
-         "now": int(f[7]), "rm": unhex(f[8]), "targets": [] if f[9] == "." else [unhex(x) for x in f[9].split(",")]}
+         "now": int(f[7].split(".")[0]), "rm": unhex(f[8]), "targets": [] if f[9] == "." else [unhex(x) for x in f[9].split(",")]}
     return d
 
 
@@ -306,6 +306,8 @@ def oracle_c03(line, m, impl, model):
 def oracle_c04(line, m, impl, model):
     if not impl_ok(impl, ["clean"]):
         return "clean panicked"
+    if m.get("expect") is not None:
+        return oracle_doc_expected(line, m, impl, model)
     c = parse_dcase(line)
     r = ref_of(c)
     if r.abstain or r.extents:
@@ -615,6 +617,24 @@ def degenerate_unwrap_cases(rng, tier, prefix="u"):
     return cases, meta
 
 
+def nameless_marker_cases(prefix="nm"):
+    """removal-markers whose `name` has no value (missing, bare, unquoted), with the empty string among
+    the targets: never ready"""
+    cases, meta = [], {}
+    k = 0
+    for ds, de in (("<", ">"), ("<!-- <", "> -->")):
+        for targets in (("", "x"), ("",), ("x",)):
+            for attrs in ("", " name", " name=x", " name=", " skip name", " name skip", " name=feature2", " Name=\"\"", " name =", " c=\"\" name"):
+                for block in (False, True):
+                    body = "\nb\n" if block else "b"
+                    src = "a" + ("\n" if block else "") + ds + "rm" + attrs + de + body + ds + "/rm" + de + ("\nc" if block else "c")
+                    cid = f"{prefix}{k}"
+                    k += 1
+                    cases.append(G.dcase(cid, ds, de, src, G.Cfg(targets=targets)))
+                    meta[cid] = {"stream": "nameless-marker", "expect": src, "why": f"attrs={attrs!r} targets={targets!r}"}
+    return cases, meta
+
+
 def gen_front(rng, tier, pairs=None, exh_len=None):
     n = 1500 if tier == "quick" else 20000
     L = exh_len or (4 if tier == "quick" else 5)
@@ -787,7 +807,20 @@ def gen_c05(rng, tier):
         cid = f"p{i}"
         cases.append(G.dcase(cid, "<", ">", src, G.Cfg(offset="+00:00", now=G.NOW)))
         meta[cid] = {"stream": "probe", "expect": "ab" if want else src, "why": "probe"}
-    # monotonicity: the same probes at increasing times
+    # current instants with a sub-second fraction, through the whole library path (clean): the element
+    # is ready exactly when the instant, fraction included, is at or after `to`
+    j = 0
+    for base in bases[:4]:
+        for om in (0, 540, -330):
+            to = G.render_to(base + om * 60)
+            for secs, frac, ready in ((base - 1, "400000000", False), (base - 1, "500000000", False), (base - 1, "600000000", False),
+                                      (base - 1, "999999999", False), (base, "000000001", True), (base, "500000000", True), (base - 2, "999999999", False)):
+                src = f'a<tl to="{to}">x</tl>b'
+                cid = f"q{j}"
+                j += 1
+                cfg = G.Cfg(offset=G.offset_str(om, j % 2 == 0), now=f"{secs}.{frac}")
+                cases.append(G.dcase(cid, "<", ">", src, cfg))
+                meta[cid] = {"stream": "probe-subsecond", "expect": "ab" if ready else src, "why": f"now = {secs}.{frac}, to = {base}"}
     return merge((cases, meta))
 
 
@@ -861,7 +894,7 @@ def gen_c06(rng, tier):
         if "<" not in name and ">" not in name:
             cases.append(kcase(f"ke{j}", "C", False, "S", "O", None, None, None, None, 0, G.NOW, None, [name], None, src))
             meta[f"ke{j}"] = {"stream": "cli-defaults", "expect_stdout": "ab"}
-    return merge(corpus_cases(), (cases, meta), docs)
+    return merge(corpus_cases(), (cases, meta), docs, nameless_marker_cases())
 
 
 def oracle_c06(line, m, impl, model):
@@ -1557,7 +1590,7 @@ def write_replay(pid, obj, kind):
     if f[0] == "D":
         o["readable"] = {"delimiters": [unhex(f[2]).decode("utf-8", "replace"), unhex(f[3]).decode("utf-8", "replace")],
                          "source": unhex(f[4]).decode("utf-8", "replace"), "time_limited_tag": unhex(f[5]).decode("utf-8", "replace"),
-                         "offset": unhex(f[6]).decode("utf-8", "replace"), "now": int(f[7]), "removal_marker_tag": unhex(f[8]).decode("utf-8", "replace"),
+                         "offset": unhex(f[6]).decode("utf-8", "replace"), "now": f[7], "removal_marker_tag": unhex(f[8]).decode("utf-8", "replace"),
                          "targets": [] if f[9] == "." else [unhex(x).decode("utf-8", "replace") for x in f[9].split(",")]}
     o["replay_cmd"] = f"bin/vcheck {pid} --replay {path}"
     vlib.write_json(path, o)
@@ -1710,7 +1743,7 @@ _P = {
     "C02": mk(lambda rng, t: gen_docs(rng, t, p_mut=0.3), DOC_STAGES_CLEAN, oracle_c02, "no over-removal", RULE_DOC),
     "C03": mk(lambda rng, t: gen_docs(rng, t, p_mut=0.3), DOC_STAGES_CLEAN, oracle_c03, "no under-removal", RULE_DOC),
     "C04": mk(lambda rng, t: merge(gen_docs(rng, t, kinds=["pending_tl", "pending_rm", "skip", "unreg"], p_mut=0.5, safe=False),
-                                   degenerate_unwrap_cases(rng, t)),
+                                   degenerate_unwrap_cases(rng, t), nameless_marker_cases()),
               ["tok", "tag", "tree", "markers", "clean"], oracle_c04, "no-op identity", RULE_DOC, nontrivial_tok),
     "C05": mk(gen_c05, ["evalt", "clean"], oracle_c05, "expiry decision", "boundary grid (±2 s around the instant, offsets −12:00…+14:00 step 15 min, both spellings), every malformed class, lenient forms, random grid; all T cases count as non-trivial", nontrivial_tok),
     "C06": mk(gen_c06, ["evalm", "markers", "clean", "tag", "cli"], oracle_c06, "marker and skip decision", "name/target pool products, attribute permutations, tag-name configurations, AST documents", nontrivial_tok),
